@@ -36,7 +36,7 @@ func TestMain(m *testing.M) {
 	vh.Main(m, vh.Meta{
 		ID:    "C05",
 		Level: "exploration",
-		Rule: "(write-read) 1..4 meshes with distinct names matching [A-Za-z0-9_]+, each a rapid-generated well-formed triangle mesh (1..6 vertices, 1..5 triangles, any index pattern incl. shared, repeated and unreferenced vertices, Position always, Normal and TexCoord independently present, values k/8, arbitrary doubles in [-1e3,1e3] and magnitudes 1e-6..1e6, material ranges absent or a partition of the triangles over a pool of four named materials and nil), optional mtllib name. " +
+		Rule: "(write-read) 1..4 meshes with distinct whitespace-free names (letters, digits and the punctuation _%.()+@!,;:=~^&$'-), each a rapid-generated well-formed triangle mesh (1..6 vertices, 1..5 triangles, any index pattern incl. shared, repeated and unreferenced vertices, Position always, Normal and TexCoord independently present, values k/8, arbitrary doubles in [-1e3,1e3] and magnitudes 1e-6..1e6, material ranges absent or a partition of the triangles over a pool of four named materials and nil), optional mtllib name. " +
 			"Oracle W: the text written by obj.WriteMeshes is parsed by the harness' own OBJ parser (1-based indices validated against the v/vt/vn lists) and must give one face-bearing group per mesh with the mesh's name, triangle count, corner form, per-corner position/normal/uv (float32 precision) and governing usemtl name; oracle R: obj.ReadMesh of the text must give the same per group (name, triangle count and order, attribute presence, per-corner values to float32 precision, material name per triangle expanded from the ranges, nil = DefaultDiffuse). " +
 			"(read-write) OBJ text drawn from a grammar: v/vt/vn pools (optionally extended mid-file), optional mtllib/o/s lines, comments, blank lines, whitespace variants, CRLF, 1..14 statements out of {g <distinct name>, usemtl m0..m2, triangular f} in any order, one corner form (v, v/vt, v//vn, v/vt/vn) per group, literals as integers, k/8, 6-decimal and 4-decimal numbers. " +
 			"Oracle: the harness parser gives the face list; obj.ReadMesh must load the same number of faces, the same face-bearing groups (name, face count) and per face the same positions (and normals/uvs where the form has them) to float32 precision; obj.WriteMeshes of the loaded meshes parsed by the harness parser must contain exactly the loaded faces as a multiset of position triples (face-lost / face-invented); ranges of a loaded group must cover its triangles and every face preceded by a usemtl inside its own group must carry that name. " +
@@ -347,7 +347,7 @@ type WRCase struct {
 var (
 	objAttrs = []gen.AttrSpec{{Name: modeling.PositionAttribute, Arity: 3}, {Name: modeling.NormalAttribute, Arity: 3}, {Name: modeling.TexCoordAttribute, Arity: 2}}
 	triOnly  = []modeling.Topology{modeling.TriangleTopology}
-	nameRe   = regexp.MustCompile(`^[A-Za-z0-9_]+$`)
+	nameRe   = regexp.MustCompile(`^[A-Za-z0-9_%.()+@!,;:=~^&$'-]+$`)
 )
 
 // objVal: mostly k/8 (float32-exact, shrink friendly), arbitrary doubles, a wide magnitude range.
@@ -371,6 +371,9 @@ func genWR(t *rapid.T) WRCase {
 	used := map[string]bool{}
 	for i := 0; i < n; i++ {
 		name := rapid.StringMatching(`[A-Za-z0-9_]{1,6}`).Draw(t, "name")
+		if rapid.IntRange(0, 3).Draw(t, "punctuatedName") == 0 { // names as asset pipelines write them: rock_LOD50%, tree.001, wall(2)
+			name = rapid.StringMatching(`[A-Za-z0-9_%.()+@!,;:=~^&$'-]{1,8}`).Draw(t, "name2")
+		}
 		for used[name] {
 			name += "_" + strconv.Itoa(i)
 		}
